@@ -105,13 +105,12 @@ func (vfs *MemFS) Chdir(dir string) error {
 func (vfs *MemFS) Chmod(name string, mode fs.FileMode) error {
 	const op = "chmod"
 
-	_, child, _, err := vfs.searchNode(name, slmEval)
-	if err != vfs.err.FileExists || child == nil {
+	child, unlock, err := vfs.lockedNode(name, slmEval)
+	if err != nil {
 		return &fs.PathError{Op: op, Path: name, Err: err}
 	}
 
-	child.Lock()
-	defer child.Unlock()
+	defer unlock()
 
 	if !child.setMode(mode, vfs.User()) {
 		return &fs.PathError{Op: op, Path: name, Err: vfs.err.OpNotPermitted}
@@ -134,13 +133,12 @@ func (vfs *MemFS) Chown(name string, uid, gid int) error {
 		return &fs.PathError{Op: op, Path: name, Err: vfs.err.OpNotPermitted}
 	}
 
-	_, child, _, err := vfs.searchNode(name, slmEval)
-	if err != vfs.err.FileExists || child == nil {
+	child, unlock, err := vfs.lockedNode(name, slmEval)
+	if err != nil {
 		return &fs.PathError{Op: op, Path: name, Err: err}
 	}
 
-	child.Lock()
-	defer child.Unlock()
+	defer unlock()
 
 	if !child.canSetOwner(uid, gid, vfs.User(), vfs.HasFeature(avfs.FeatIdentityMgr)) {
 		return &fs.PathError{Op: op, Path: name, Err: vfs.err.OpNotPermitted}
@@ -160,13 +158,12 @@ func (vfs *MemFS) Chown(name string, uid, gid int) error {
 func (vfs *MemFS) Chtimes(name string, _, mtime time.Time) error {
 	const op = "chtimes"
 
-	_, child, _, err := vfs.searchNode(name, slmEval)
-	if err != vfs.err.FileExists || child == nil {
+	child, unlock, err := vfs.lockedNode(name, slmEval)
+	if err != nil {
 		return &fs.PathError{Op: op, Path: name, Err: err}
 	}
 
-	child.Lock()
-	defer child.Unlock()
+	defer unlock()
 
 	if !child.setModTime(mtime, vfs.User()) {
 		return &fs.PathError{Op: op, Path: name, Err: vfs.err.OpNotPermitted}
@@ -310,13 +307,12 @@ func (vfs *MemFS) Lchown(name string, uid, gid int) error {
 		return &fs.PathError{Op: op, Path: name, Err: vfs.err.OpNotPermitted}
 	}
 
-	_, child, _, err := vfs.searchNode(name, slmLstat)
-	if err != vfs.err.FileExists || child == nil {
+	child, unlock, err := vfs.lockedNode(name, slmLstat)
+	if err != nil {
 		return &fs.PathError{Op: op, Path: name, Err: err}
 	}
 
-	child.Lock()
-	defer child.Unlock()
+	defer unlock()
 
 	if !child.canSetOwner(uid, gid, vfs.User(), vfs.HasFeature(avfs.FeatIdentityMgr)) {
 		return &fs.PathError{Op: op, Path: name, Err: vfs.err.OpNotPermitted}
@@ -666,6 +662,18 @@ func (vfs *MemFS) openFile(name string, flag int, perm fs.FileMode) (file avfs.F
 		}
 
 		return f, false, nil
+	}
+
+	if child != node(parent) {
+		// the directory stays read locked while the file is opened,
+		// so that it can't be removed or replaced in between.
+		verifYield(&parent.mu, false)
+		parent.mu.RLock()
+		defer parent.mu.RUnlock()
+
+		if parent.removed || parent.children[pi.Part()] != child {
+			return nil, true, nil
+		}
 	}
 
 	switch c := child.(type) {
@@ -1218,14 +1226,16 @@ func (vfs *MemFS) Truncate(name string, size int64) error {
 		return &fs.PathError{Op: op, Path: name, Err: vfs.err.InvalidArgument}
 	}
 
-	_, child, _, err := vfs.searchNode(name, slmEval)
-	if err != vfs.err.FileExists {
+	child, unlock, err := vfs.lockedNode(name, slmEval)
+	if err != nil {
 		if vfs.OSType() == avfs.OsWindows {
 			op = "open"
 		}
 
 		return &fs.PathError{Op: op, Path: name, Err: err}
 	}
+
+	defer unlock()
 
 	c, ok := child.(*fileNode)
 	if !ok {
@@ -1235,14 +1245,6 @@ func (vfs *MemFS) Truncate(name string, size int64) error {
 
 		return &fs.PathError{Op: op, Path: name, Err: vfs.err.IsADirectory}
 	}
-
-	if size < 0 {
-		return &fs.PathError{Op: op, Path: name, Err: vfs.err.InvalidArgument}
-	}
-
-	verifYield(&c.mu, true)
-	c.mu.Lock()
-	defer c.mu.Unlock()
 
 	if !c.checkPermission(avfs.OpenWrite, vfs.User()) {
 		return &fs.PathError{Op: op, Path: name, Err: vfs.err.PermDenied}
